@@ -1542,6 +1542,11 @@ pub fn drivers_for(property: &str, thorough: bool) -> Vec<Driver> {
                         if thorough || lim == 2 {
                             push(lbl("hit, hit~evicting put"), full.clone(), vec![vec![TOp::L0Get(0), TOp::L0Get(1)], vec![TOp::L0Put(fresh, 0)]], Some(cfg.clone()), false);
                         }
+                        if lim == 2 {
+                            // with holding points: bookkeeping that only *tries* a lock meets a thread that holds it
+                            push(lbl("hit~hit [held]"), full.clone(), vec![vec![TOp::L0Get(0)], vec![TOp::L0Get(1)]], Some(cfg.clone()), false);
+                            push(lbl("hit~evicting put [held]"), full.clone(), vec![vec![TOp::L0Get(0)], vec![TOp::L0Put(fresh, 0)]], Some(cfg.clone()), false);
+                        }
                     }
                 }
             }
